@@ -28,7 +28,7 @@ Print Assumptions C23_refine_history.
    MEM_SIZE) holds after EVERY history, with no side condition *)
 Theorem C23_invariant :
   forall ops : list sop, InvSt (fst (run state_init ops)).
-Proof. intros ops. apply reachable_inv. exact InvSt_init. Qed.
+Proof. exact reachable_inv_init. Qed.
 Print Assumptions C23_invariant.
 
 (* no unchecked subtraction, slice index or unreachable!() can fire outside rollback *)
